@@ -259,3 +259,14 @@ def test_c06_numeric_segment_names_do_not_collide_with_bubble_names(tmp_path):
 def test_c14_soft_masked_sequence_is_reverse_complemented(tmp_path):
     g = GFA(w(tmp_path / "g.gfa", "S\ts1\tAac\nS\ts2\tGAT\nL\ts1\t+\ts2\t+\t0M\n"))
     assert g.extract_path("<s2<s1") == "ATCgtT"  # lower-case bases used to be reversed only
+
+
+def test_c11_cores_clamp_never_reaches_zero(tmp_path, monkeypatch):
+    import multiprocessing as mp
+    import gaftools.cli.realign as R
+
+    seen = {}
+    monkeypatch.setattr(mp, "cpu_count", lambda: 1)
+    monkeypatch.setattr(R, "realign_gaf", lambda gaf, graph, fasta, output, cores: seen.setdefault("cores", cores))
+    R.run_realign(gaf="a", graph="g", fasta="f", output=str(tmp_path / "o.gaf"), cores=2)
+    assert seen["cores"] == 1  # was 0 before 2701101: every batch of the file started at once at the end
